@@ -257,7 +257,7 @@ META = dict(
 )
 
 MANIFEST = dict(
-    text="For C18: the real io.read_dx then io.write_cube on DX text whose values are arbitrary symbolic reals (numeric tokens), whose grid counts, origin components and off-diagonal delta entries are symbolic numbers (layout strings), for every value count in the stated list with 1-3 values per DX line: the cube text, parsed back by an independent tokeniser, has the atom count and origin, the signed counts and the step vectors of the DX delta lines in order, one line per atom, exactly n values equal to the DX values in the same order (whatever their magnitude: the separation of the fields does not rely on padding), at most six per line; a second conversion in the same process is unaffected by the first; every ATOM/HETATM line of the PQR file is listed once, in order. Round 4: helper functions write_cube calls inside pdb2pqr.io are recompiled the same way and a math module used there is shimmed (isclose, copysign, fmod on exact reals).",
+    text="For C18: the real io.read_dx then io.write_cube on DX text whose values are arbitrary symbolic reals (numeric tokens), whose grid counts, origin components and off-diagonal delta entries are symbolic numbers (layout strings), for every value count in the stated list with 1-3 values per DX line: the cube text, parsed back by an independent tokeniser, has the atom count and origin, the signed counts and the step vectors of the DX delta lines in order, one line per atom, exactly n values equal to the DX values in the same order (whatever their magnitude: the separation of the fields does not rely on padding), at most six per line; a second conversion in the same process is unaffected by the first; every ATOM/HETATM line of the PQR file is listed once, in order. Round 4: helper functions write_cube calls inside pdb2pqr.io are recompiled the same way and a math module used there is shimmed (isclose, copysign, fmod on exact reals). Round 5: the dx2cube entry point on real files with and without leading comment / REMARK lines, inf / nan values anywhere on a DX line.",
     note="Trusted: z3, symx layout strings/numeric tokens, AST rewrite of write_cube's f-strings and join. Value counts are an explicit list (loops over a symbolic count are not unrolled); the decimal rendering of each value is CPython's.",
     technique="symbolic execution of real code on layout strings and numeric tokens (symx) + SMT verdict per path",
     design="DESIGN.md section 3 C18",
